@@ -156,6 +156,35 @@ pub trait Check: Sync + Send
 	{
 		None
 	}
+	/// whether `judge_source` is implemented (for this stream)
+	fn source_level(&self, _stream: &str) -> bool
+	{
+		false
+	}
+	/// The oracle of this check applied to one input given as bytes: the body
+	/// of the coverage-guided fuzz targets and of their replay.
+	fn judge_bytes(&self, _bytes: &[u8]) -> Option<CaseOut>
+	{
+		None
+	}
+	/// coverage-guided campaigns of this check (libFuzzer + ASan), per tier
+	fn fuzz_specs(&self, _tier: Tier) -> Vec<FuzzSpec>
+	{
+		Vec::new()
+	}
+}
+
+pub struct FuzzSpec
+{
+	/// binary of /verif/fuzz
+	pub target: &'static str,
+	/// executions per job (fixed work, not a time limit)
+	pub runs_per_job: u64,
+	pub jobs: usize,
+	pub max_len: usize,
+	/// initial corpus
+	pub seeds: Vec<Vec<u8>>,
+	pub dictionary: Vec<String>,
 }
 
 // ------------------------------------------------------------------ worker
@@ -373,6 +402,27 @@ pub fn worker_main(checks: &[Box<dyn Check>])
 				.find(|c| c.id() == id)
 				.unwrap_or_else(|| panic!("unknown check {}", id));
 			streams_cache.insert(id.clone(), check.streams());
+		}
+		if let Some(hex) = req.get("bytes_hex").and_then(|c| c.as_str())
+		{
+			let bytes = unhex(hex);
+			let check = checks.iter().find(|c| c.id() == id).unwrap();
+			{
+				let mut o = stdout.lock();
+				writeln!(o, "S 0").unwrap();
+				o.flush().unwrap();
+			}
+			if let Ok(path) = std::env::var("PV_RECORD_INPUT")
+			{
+				let _ = std::fs::write(path, json!({"bytes_hex": hex}).to_string());
+			}
+			let out = check.judge_bytes(&bytes).unwrap_or_default();
+			let mut agg = Agg::default();
+			caseout_to_agg(&mut agg, 0, out, true);
+			let mut o = stdout.lock();
+			writeln!(o, "R {}", agg.to_json(1)).unwrap();
+			o.flush().unwrap();
+			continue;
 		}
 		if let Some(src) = req.get("source").and_then(|c| c.as_array())
 		{
@@ -943,6 +993,32 @@ fn run_source(
 	run_request(sname, req, timeout)
 }
 
+pub fn hex(b: &[u8]) -> String
+{
+	let mut s = String::with_capacity(b.len() * 2);
+	for x in b
+	{
+		s.push_str(&format!("{:02x}", x));
+	}
+	s
+}
+
+pub fn unhex(h: &str) -> Vec<u8>
+{
+	let h = h.as_bytes();
+	(0..h.len() / 2)
+		.map(|i| u8::from_str_radix(std::str::from_utf8(&h[2 * i..2 * i + 2]).unwrap_or("00"), 16).unwrap_or(0))
+		.collect()
+}
+
+/// the check's byte-level oracle on one input, in a fresh worker
+fn run_bytes(id: &str, sname: &str, bytes: &[u8], cfg: &RunConfig, timeout: Duration) -> Vec<(String, Value)>
+{
+	let req = json!({"id": id, "stream": sname, "tier": cfg.tier.name(), "seed": cfg.seed,
+		"bytes_hex": hex(bytes)});
+	run_request(sname, req, timeout)
+}
+
 fn run_request(sname: &str, req: Value, timeout: Duration) -> Vec<(String, Value)>
 {
 	let per_stream_sigs = PER_STREAM_SIGS.load(Ordering::SeqCst) != 0;
@@ -1168,6 +1244,77 @@ fn source_of_detail(detail: &Value) -> Option<Vec<(String, String)>>
 	None
 }
 
+/// Delta debugging over a list of pieces: delete chunks of halving size while
+/// `fails` still holds for the concatenation.
+fn ddmin(
+	mut pieces: Vec<Vec<u8>>,
+	fails: &mut dyn FnMut(&[u8]) -> bool,
+	out_of_budget: &dyn Fn() -> bool,
+) -> Vec<Vec<u8>>
+{
+	let mut chunk = (pieces.len() / 2).max(1);
+	loop
+	{
+		let mut i = 0;
+		let mut progressed = false;
+		while i < pieces.len() && !out_of_budget()
+		{
+			let end = (i + chunk).min(pieces.len());
+			let mut cand = pieces.clone();
+			cand.drain(i..end);
+			if fails(&cand.concat())
+			{
+				pieces = cand;
+				progressed = true;
+			}
+			else
+			{
+				i = end;
+			}
+		}
+		if out_of_budget()
+		{
+			break;
+		}
+		if chunk == 1
+		{
+			if !progressed
+			{
+				break;
+			}
+		}
+		else
+		{
+			chunk /= 2;
+		}
+	}
+	pieces
+}
+
+fn split_lines(t: &[u8]) -> Vec<Vec<u8>>
+{
+	t.split_inclusive(|b| *b == b'\n').map(|l| l.to_vec()).collect()
+}
+
+fn split_tokens(t: &[u8]) -> Vec<Vec<u8>>
+{
+	let toks = crate::reflex::lex(t).toks;
+	let mut cuts: Vec<usize> = toks.iter().map(|k| k.start).filter(|&a| a > 0 && a < t.len()).collect();
+	cuts.dedup();
+	let mut out = Vec::new();
+	let mut from = 0;
+	for c in cuts
+	{
+		if c > from
+		{
+			out.push(t[from..c].to_vec());
+			from = c;
+		}
+	}
+	out.push(t[from..].to_vec());
+	out
+}
+
 /// Reduce the source of a failing case while the same signature is produced:
 /// whole files, then chunks of lines, then chunks of tokens (delta debugging).
 fn reduce_source(
@@ -1180,13 +1327,13 @@ fn reduce_source(
 ) -> Option<(Vec<(String, String)>, u32)>
 {
 	let deadline = Instant::now() + Duration::from_secs(240);
-	let mut steps = 0u32;
+	let steps = std::cell::Cell::new(0u32);
 	let max_steps = 1500u32;
-	let mut fails = |f: &[(String, String)], steps: &mut u32| -> bool {
-		*steps += 1;
+	let fails_files = |f: &[(String, String)]| -> bool {
+		steps.set(steps.get() + 1);
 		run_source(id, sname, f, cfg, timeout).iter().any(|(s, _)| s == sig)
 	};
-	if !fails(&files, &mut steps)
+	if !fails_files(&files)
 	{
 		return None;
 	}
@@ -1197,7 +1344,7 @@ fn reduce_source(
 	{
 		let mut cand = best.clone();
 		cand.remove(i);
-		if fails(&cand, &mut steps)
+		if fails_files(&cand)
 		{
 			best = cand;
 		}
@@ -1206,80 +1353,410 @@ fn reduce_source(
 			i += 1;
 		}
 	}
-	// pieces of one file: `split` cuts the text, chunks of pieces are deleted
-	let mut pass = |best: &mut Vec<(String, String)>,
-	                steps: &mut u32,
-	                split: &dyn Fn(&str) -> Vec<String>| {
+	let out_of_budget = || steps.get() >= max_steps || Instant::now() >= deadline;
+	for split in [split_lines as fn(&[u8]) -> Vec<Vec<u8>>, split_tokens, split_lines]
+	{
 		for fi in 0..best.len()
 		{
-			let mut pieces = split(&best[fi].1);
-			let mut chunk = (pieces.len() / 2).max(1);
-			loop
+			let pieces = split(best[fi].1.as_bytes());
+			let snapshot = best.clone();
+			let mut test = |text: &[u8]| -> bool {
+				match std::str::from_utf8(text)
+				{
+					Ok(t) =>
+					{
+						let mut cand = snapshot.clone();
+						cand[fi].1 = t.to_string();
+						fails_files(&cand)
+					}
+					Err(_) => false,
+				}
+			};
+			let pieces = ddmin(pieces, &mut test, &out_of_budget);
+			if let Ok(t) = String::from_utf8(pieces.concat())
 			{
-				let mut i = 0;
-				let mut progressed = false;
-				while i < pieces.len() && *steps < max_steps && Instant::now() < deadline
+				best[fi].1 = t;
+			}
+		}
+	}
+	Some((best, steps.get()))
+}
+
+/// the same for an input that is just bytes (fuzzing artifacts)
+fn reduce_bytes(
+	id: &str,
+	sname: &str,
+	bytes: Vec<u8>,
+	sig: &str,
+	cfg: &RunConfig,
+	timeout: Duration,
+) -> (Vec<u8>, u32)
+{
+	let deadline = Instant::now() + Duration::from_secs(180);
+	let steps = std::cell::Cell::new(0u32);
+	let out_of_budget = || steps.get() >= 1200 || Instant::now() >= deadline;
+	let mut fails = |b: &[u8]| -> bool {
+		steps.set(steps.get() + 1);
+		run_bytes(id, sname, b, cfg, timeout).iter().any(|(s, _)| s == sig)
+	};
+	let mut best = bytes;
+	for split in [split_lines as fn(&[u8]) -> Vec<Vec<u8>>, split_tokens]
+	{
+		best = ddmin(split(&best), &mut fails, &out_of_budget).concat();
+	}
+	if best.len() <= 4096
+	{
+		let single: Vec<Vec<u8>> = best.iter().map(|b| vec![*b]).collect();
+		best = ddmin(single, &mut fails, &out_of_budget).concat();
+	}
+	(best, steps.get())
+}
+
+// ------------------------------------------------------------------ fuzzing
+
+thread_local! {
+	static LAST_PANIC: std::cell::RefCell<Option<String>> = const { std::cell::RefCell::new(None) };
+}
+
+/// Body of every libFuzzer target: the check's byte-level oracle on one
+/// input. A failure or panic whose signature is a recorded known finding is
+/// tolerated (so that a campaign continues past it); anything else aborts,
+/// which makes libFuzzer save the input.
+pub fn fuzz_one(check: &dyn Check, data: &[u8])
+{
+	static INIT: std::sync::Once = std::sync::Once::new();
+	static KNOWN: std::sync::OnceLock<KnownFindings> = std::sync::OnceLock::new();
+	INIT.call_once(|| {
+		// replaces libfuzzer-sys's abort-on-panic hook: panics are classified first
+		std::panic::set_hook(Box::new(|info| {
+			let loc = info
+				.location()
+				.map(|l| format!("{}:{}", l.file(), l.line()))
+				.unwrap_or_else(|| "?".to_string());
+			let msg = if let Some(s) = info.payload().downcast_ref::<&str>()
+			{
+				s.to_string()
+			}
+			else if let Some(s) = info.payload().downcast_ref::<String>()
+			{
+				s.clone()
+			}
+			else
+			{
+				"?".to_string()
+			};
+			let msg: String = msg.chars().take(300).collect::<String>().replace('\n', " ");
+			LAST_PANIC.with(|p| *p.borrow_mut() = Some(normalize_panic(&loc, &msg)));
+		}));
+		let _ = KNOWN.set(KnownFindings::load());
+	});
+	let known = KNOWN.get().unwrap();
+	let id = check.id();
+	let tolerated = |sig: &str| -> bool {
+		known
+			.entries
+			.iter()
+			.any(|(p, s, _)| p == id && (s == sig || s.starts_with(&format!("{} in ", sig)) || s.starts_with(&format!("{} [", sig))))
+	};
+	let r = std::panic::catch_unwind(std::panic::AssertUnwindSafe(|| check.judge_bytes(data)));
+	match r
+	{
+		Ok(Some(out)) =>
+		{
+			for f in out.failures
+			{
+				if !tolerated(&f.sig)
 				{
-					let end = (i + chunk).min(pieces.len());
-					let mut cand_pieces = pieces.clone();
-					cand_pieces.drain(i..end);
-					let mut cand = best.clone();
-					cand[fi].1 = cand_pieces.concat();
-					if fails(&cand, steps)
-					{
-						pieces = cand_pieces;
-						*best = cand;
-						progressed = true;
-					}
-					else
-					{
-						i = end;
-					}
+					eprintln!("ORACLE {}", f.sig);
+					std::process::abort();
 				}
-				if *steps >= max_steps || Instant::now() >= deadline
+			}
+		}
+		Ok(None) => (),
+		Err(_) =>
+		{
+			let sig = LAST_PANIC.with(|p| p.borrow_mut().take()).unwrap_or_else(|| "panic ?".to_string());
+			if !tolerated(&sig)
+			{
+				eprintln!("ORACLE {}", sig);
+				std::process::abort();
+			}
+		}
+	}
+}
+
+struct FuzzOutcome
+{
+	evidence: Value,
+	executions: u64,
+	corpus_units: u64,
+	/// (signature, detail, bytes)
+	failures: Vec<(String, Value, Vec<u8>)>,
+	inconclusive: u64,
+}
+
+/// One coverage-guided campaign: build the target (libFuzzer, ASan, debug
+/// assertions) from /repo's working tree, run `jobs` processes of
+/// `runs_per_job` executions each over a fresh corpus directory, then judge
+/// every saved artifact with the check's own oracle in a worker process.
+fn run_fuzz(check: &dyn Check, spec: &FuzzSpec, cfg: &RunConfig) -> Result<FuzzOutcome, String>
+{
+	let id = check.id();
+	let root = verif_root();
+	let target_dir = root.join("target").join("fuzz");
+	let log_dir = scratch_dir().join(format!("fuzz-{}-{}", spec.target, std::process::id()));
+	let _ = std::fs::remove_dir_all(&log_dir);
+	let corpus = log_dir.join("corpus");
+	let artifacts = log_dir.join("artifacts");
+	std::fs::create_dir_all(&corpus).map_err(|e| e.to_string())?;
+	std::fs::create_dir_all(&artifacts).map_err(|e| e.to_string())?;
+	let t0 = Instant::now();
+	let build = Command::new("cargo")
+		.args(["+nightly", "fuzz", "build", "--fuzz-dir"])
+		.arg(root.join("fuzz"))
+		.arg("--target-dir")
+		.arg(&target_dir)
+		.arg(spec.target)
+		.current_dir(root.join("fuzz"))
+		.env_remove("CARGO_TARGET_DIR")
+		.output()
+		.map_err(|e| format!("cannot run cargo fuzz: {}", e))?;
+	if !build.status.success()
+	{
+		let err = String::from_utf8_lossy(&build.stderr);
+		let tail: String = err.lines().rev().take(25).collect::<Vec<_>>().into_iter().rev().collect::<Vec<_>>().join("\n");
+		return Err(format!("fuzz target {} does not build:\n{}", spec.target, tail));
+	}
+	let build_s = t0.elapsed().as_secs_f64();
+	let bin = target_dir.join("x86_64-unknown-linux-gnu").join("release").join(spec.target);
+	for (i, sd) in spec.seeds.iter().enumerate()
+	{
+		let _ = std::fs::write(corpus.join(format!("seed-{:04}", i)), sd);
+	}
+	let dict = log_dir.join("dict.txt");
+	if !spec.dictionary.is_empty()
+	{
+		let mut text = String::new();
+		for w in &spec.dictionary
+		{
+			let mut esc = String::new();
+			for b in w.bytes()
+			{
+				if b == b'"' || b == b'\\' || !(0x20..0x7f).contains(&b)
 				{
-					break;
-				}
-				if chunk == 1
-				{
-					if !progressed
-					{
-						break;
-					}
+					esc.push_str(&format!("\\x{:02x}", b));
 				}
 				else
 				{
-					chunk /= 2;
+					esc.push(b as char);
+				}
+			}
+			text.push_str(&format!("\"{}\"\n", esc));
+		}
+		let _ = std::fs::write(&dict, text);
+	}
+	let t1 = Instant::now();
+	let mut children = Vec::new();
+	for j in 0..spec.jobs.max(1)
+	{
+		let log = std::fs::File::create(log_dir.join(format!("job-{}.log", j))).map_err(|e| e.to_string())?;
+		let mut cmd = Command::new(&bin);
+		cmd.arg(format!("-runs={}", spec.runs_per_job))
+			// libFuzzer treats seed 0 as "random"
+			.arg(format!("-seed={}", 1 + (cfg.seed.wrapping_mul(1000) + j as u64) % 4_000_000_000))
+			.arg(format!("-max_len={}", spec.max_len))
+			.arg("-timeout=60")
+			.arg("-rss_limit_mb=6144")
+			.arg("-print_final_stats=1")
+			.arg(format!("-artifact_prefix={}/", artifacts.display()));
+		if !spec.dictionary.is_empty()
+		{
+			cmd.arg(format!("-dict={}", dict.display()));
+		}
+		cmd.arg(&corpus)
+			.env("PV_ROOT", &root)
+			.env("ASAN_OPTIONS", "detect_leaks=0:abort_on_error=1:symbolize=1")
+			.stdin(Stdio::null())
+			.stdout(Stdio::null())
+			.stderr(Stdio::from(log));
+		children.push(cmd.spawn().map_err(|e| format!("cannot start {}: {}", bin.display(), e))?);
+	}
+	// fixed work; the watchdog only guards against a wedged process
+	let watchdog = Duration::from_secs(1800 + spec.runs_per_job / 200);
+	let mut inconclusive = 0u64;
+	for c in children.iter_mut()
+	{
+		loop
+		{
+			match c.try_wait()
+			{
+				Ok(Some(_)) => break,
+				Ok(None) =>
+				{
+					if t1.elapsed() > watchdog
+					{
+						let _ = c.kill();
+						let _ = c.wait();
+						inconclusive += 1;
+						break;
+					}
+					std::thread::sleep(Duration::from_millis(200));
+				}
+				Err(_) => break,
+			}
+		}
+	}
+	let run_s = t1.elapsed().as_secs_f64();
+	// statistics from the logs
+	let mut executions = 0u64;
+	let mut cov = 0u64;
+	let mut ft = 0u64;
+	let mut logs_tail = Vec::new();
+	for j in 0..spec.jobs.max(1)
+	{
+		let text = std::fs::read(log_dir.join(format!("job-{}.log", j)))
+			.map(|b| String::from_utf8_lossy(&b).to_string())
+			.unwrap_or_default();
+		let mut execs_of_job = 0u64;
+		for l in text.lines()
+		{
+			if let Some(rest) = l.strip_prefix("stat::number_of_executed_units:")
+			{
+				execs_of_job = rest.trim().parse().unwrap_or(0);
+			}
+			if l.starts_with('#')
+			{
+				let words: Vec<&str> = l.split_whitespace().collect();
+				if execs_of_job == 0
+				{
+					if let Some(n) = words.first().and_then(|w| w[1..].parse::<u64>().ok())
+					{
+						execs_of_job = execs_of_job.max(n);
+					}
+				}
+				for w in words.windows(2)
+				{
+					if w[0] == "cov:"
+					{
+						cov = cov.max(w[1].parse().unwrap_or(0));
+					}
+					if w[0] == "ft:"
+					{
+						ft = ft.max(w[1].parse().unwrap_or(0));
+					}
 				}
 			}
 		}
-	};
-	let by_lines = |t: &str| -> Vec<String> { t.split_inclusive('\n').map(|l| l.to_string()).collect() };
-	let by_tokens = |t: &str| -> Vec<String> {
-		let toks = crate::reflex::lex(t.as_bytes()).toks;
-		let mut cuts: Vec<usize> = toks
-			.iter()
-			.map(|k| k.start)
-			.filter(|&a| a > 0 && a < t.len() && t.is_char_boundary(a))
-			.collect();
-		cuts.dedup();
-		let mut out = Vec::new();
-		let mut from = 0;
-		for c in cuts
+		executions += execs_of_job;
+		logs_tail.push(text);
+	}
+	let corpus_units = std::fs::read_dir(&corpus).map(|d| d.count() as u64).unwrap_or(0);
+	// artifacts
+	let mut failures = Vec::new();
+	let mut arts: Vec<std::path::PathBuf> = std::fs::read_dir(&artifacts)
+		.map(|d| d.filter_map(|e| e.ok()).map(|e| e.path()).collect())
+		.unwrap_or_default();
+	arts.sort();
+	let sname = format!("fuzz:{}", spec.target);
+	let mut seen = HashSet::new();
+	for a in arts.iter()
+	{
+		let name = a.file_name().map(|n| n.to_string_lossy().to_string()).unwrap_or_default();
+		let bytes = std::fs::read(a).unwrap_or_default();
+		if name.starts_with("timeout-") || name.starts_with("oom-") || name.starts_with("slow-unit-")
 		{
-			if c > from
+			if !name.starts_with("slow-unit-")
 			{
-				out.push(t[from..c].to_string());
-				from = c;
+				inconclusive += 1;
+				eprintln!("[{}] fuzz {}: {} (inconclusive, {} bytes)", id, spec.target, name, bytes.len());
+			}
+			continue;
+		}
+		let res = run_bytes(id, &sname, &bytes, cfg, Duration::from_secs(120));
+		if res.is_empty()
+		{
+			// not reproduced by the oracle in a fresh process: take the class
+			// from the fuzzer's own report (sanitizer findings end up here)
+			let mut sig = String::from("fuzz artifact not reproduced outside the fuzzer");
+			for t in &logs_tail
+			{
+				if let Some(l) = t.lines().find(|l| l.contains("ERROR: AddressSanitizer") || l.starts_with("ORACLE "))
+				{
+					let frame = t
+						.lines()
+						.skip_while(|x| !x.contains("ERROR: AddressSanitizer"))
+						.find(|x| x.contains(" in penne::") || x.contains(" in <penne::"))
+						.and_then(|x| x.split(" in ").nth(1))
+						.map(|x| x.split(" /").next().unwrap_or(x).to_string())
+						.unwrap_or_default();
+					let l: String = l.chars().take(100).collect();
+					let kind = l.split("AddressSanitizer:").nth(1).map(|k| k.split_whitespace().next().unwrap_or("").to_string());
+					sig = match kind
+					{
+						Some(k) => format!("asan {} {}", k, frame).trim().to_string(),
+						None => l.trim_start_matches("ORACLE ").to_string(),
+					};
+					break;
+				}
+			}
+			if seen.insert(sig.clone())
+			{
+				failures.push((sig, json!({"artifact": name, "reproduced": false}), bytes));
+			}
+			continue;
+		}
+		for (sig, detail) in res
+		{
+			if sig == "timeout"
+			{
+				inconclusive += 1;
+				continue;
+			}
+			if seen.insert(sig.clone())
+			{
+				failures.push((sig, detail, bytes.clone()));
 			}
 		}
-		out.push(t[from..].to_string());
-		out
-	};
-	pass(&mut best, &mut steps, &by_lines);
-	pass(&mut best, &mut steps, &by_tokens);
-	pass(&mut best, &mut steps, &by_lines);
-	Some((best, steps))
+	}
+	// a few corpus units as samples
+	let mut samples = Vec::new();
+	if let Ok(rd) = std::fs::read_dir(&corpus)
+	{
+		let mut names: Vec<_> = rd.filter_map(|e| e.ok()).map(|e| e.path()).collect();
+		names.sort();
+		for pth in names.iter().rev().take(3)
+		{
+			if let Ok(b) = std::fs::read(pth)
+			{
+				let t: String = String::from_utf8_lossy(&b).chars().take(300).collect();
+				samples.push(json!({"bytes": b.len(), "text": t}));
+			}
+		}
+	}
+	let evidence = json!({
+		"target": spec.target,
+		"engine": "libFuzzer (cargo-fuzz, AddressSanitizer, debug assertions on)",
+		"jobs": spec.jobs,
+		"runs_per_job": spec.runs_per_job,
+		"max_len": spec.max_len,
+		"seed_corpus_units": spec.seeds.len(),
+		"executions": executions,
+		"final_corpus_units": corpus_units,
+		"coverage_edges": cov,
+		"coverage_features": ft,
+		"artifacts": arts.len(),
+		"build_s": build_s,
+		"run_s": run_s,
+		"samples": samples,
+	});
+	let _ = std::fs::remove_dir_all(&log_dir);
+	Ok(FuzzOutcome {
+		evidence,
+		executions,
+		corpus_units,
+		failures,
+		inconclusive,
+	})
 }
 
 pub fn run_check(check: &dyn Check, cfg: &RunConfig) -> i32
@@ -1474,12 +1951,45 @@ pub fn run_check(check: &dyn Check, cfg: &RunConfig) -> i32
 		exhaustive_all = false;
 	}
 
-	// ---- triage failures
-	let known = KnownFindings::load();
 	let mut tot = Arc::try_unwrap(tot)
 		.unwrap_or_else(|_| panic!("totals still shared"))
 		.into_inner()
 		.unwrap();
+
+	// ---- coverage-guided campaigns
+	let mut fuzz_evidence = Vec::new();
+	let mut fuzz_failures: BTreeMap<String, (String, Value, Vec<u8>)> = BTreeMap::new();
+	let mut fuzz_units = 0u64;
+	for spec in check.fuzz_specs(cfg.tier)
+	{
+		exhaustive_all = false;
+		match run_fuzz(check, &spec, cfg)
+		{
+			Ok(o) =>
+			{
+				tot.evals += o.executions;
+				*tot.per_stream.entry(format!("fuzz:{}", spec.target)).or_insert(0) += o.executions;
+				fuzz_units += o.corpus_units;
+				tot.timeouts += o.inconclusive;
+				fuzz_evidence.push(o.evidence);
+				for (sig, detail, bytes) in o.failures
+				{
+					*tot.fail_counts.entry(sig.clone()).or_insert(0) += 1;
+					fuzz_failures.entry(sig).or_insert((format!("fuzz:{}", spec.target), detail, bytes));
+				}
+			}
+			Err(e) =>
+			{
+				// the campaign could not run: inconclusive, never a violation
+				eprintln!("[{}] {}", id, e);
+				tot.timeouts += 1;
+				fuzz_evidence.push(json!({"target": spec.target, "error": e}));
+			}
+		}
+	}
+
+	// ---- triage failures
+	let known = KnownFindings::load();
 	let mut violations = 0;
 	let mut excluded: BTreeMap<String, u64> = BTreeMap::new();
 	let reps = std::mem::take(&mut tot.reps);
@@ -1521,10 +2031,9 @@ pub fn run_check(check: &dyn Check, cfg: &RunConfig) -> i32
 			(Vec::new(), detail.clone(), 0)
 		};
 		// source-level reduction, for checks whose oracle needs only the source
-		let ctx0 = RunCtx { tier: cfg.tier, seed: cfg.seed, want_sample: false, replay: true };
 		let reduced = match source_of_detail(&detail2)
 		{
-			Some(files) if check.judge_source(sname, &[], &ctx0).is_some() =>
+			Some(files) if check.source_level(sname) =>
 			{
 				reduce_source(id, sname, files, sig, cfg, stream.timeout())
 			}
@@ -1553,8 +2062,51 @@ pub fn run_check(check: &dyn Check, cfg: &RunConfig) -> i32
 		eprintln!("[{}] new failure signature: {} ({} times)", id, sig, count);
 	}
 
+	for (sig, (sname, detail, bytes)) in fuzz_failures.iter()
+	{
+		let count = tot.fail_counts.get(sig).copied().unwrap_or(1);
+		if let Some(what) = known.find(id, sig)
+		{
+			lines.push(format!(
+				"KNOWN-FINDING: property={} {} [signature: {}; hit {} times]",
+				id, what, sig, count
+			));
+			excluded.insert(sig.clone(), count);
+			continue;
+		}
+		violations += 1;
+		let reproduced = detail.get("reproduced").and_then(|r| r.as_bool()).unwrap_or(true);
+		let (small, steps) = if reproduced
+		{
+			reduce_bytes(id, sname, bytes.clone(), sig, cfg, Duration::from_secs(120))
+		}
+		else
+		{
+			(bytes.clone(), 0)
+		};
+		let dir = verif_root().join("replays").join(id);
+		let _ = std::fs::create_dir_all(&dir);
+		let h = crate::choices::fnv(&format!("{}|{}", sig, sname));
+		let path = dir.join(format!("{:016x}.json", h));
+		let replay = json!({
+			"property": id,
+			"stream": sname,
+			"seed": cfg.seed,
+			"tier": cfg.tier.name(),
+			"signature": sig,
+			"bytes_hex": hex(&small),
+			"text": String::from_utf8_lossy(&small),
+			"original_bytes_hex": hex(bytes),
+			"reduce_steps": steps,
+			"detail": detail,
+		});
+		let _ = std::fs::write(&path, serde_json::to_string_pretty(&replay).unwrap());
+		lines.push(format!("VIOLATION property={} replay={}", id, path.display()));
+		eprintln!("[{}] new failure signature: {} (fuzzing)", id, sig);
+	}
+
 	// ---- evidence
-	let distinct_nt = tot.keys.len() as u64 + tot.nt_exhaustive;
+	let distinct_nt = tot.keys.len() as u64 + tot.nt_exhaustive + fuzz_units;
 	let wall = t0.elapsed().as_secs_f64();
 	let mut coverage = Map::new();
 	coverage.insert("evaluations".into(), json!(tot.evals));
@@ -1568,6 +2120,10 @@ pub fn run_check(check: &dyn Check, cfg: &RunConfig) -> i32
 	coverage.insert("discarded".into(), json!(tot.discards));
 	coverage.insert("excluded_by_signature".into(), json!(excluded));
 	coverage.insert("inconclusive_timeouts".into(), json!(tot.timeouts));
+	if !fuzz_evidence.is_empty()
+	{
+		coverage.insert("fuzzing".into(), json!(fuzz_evidence));
+	}
 	if check.level() == "translation_validation"
 	{
 		coverage.insert(
@@ -1663,6 +2219,12 @@ pub fn replay(check: &dyn Check, path: &str) -> i32
 		seed,
 		threads: 1,
 	};
+	if let Some(h) = v["bytes_hex"].as_str()
+	{
+		// a fuzzing artifact: the oracle on the saved bytes, no fuzzer involved
+		let res = run_bytes(id, &sname, &unhex(h), &cfg, Duration::from_secs(120));
+		return report_replay(id, path, &res);
+	}
 	let streams = check.streams();
 	let stream = match streams.iter().find(|s| s.name() == sname)
 	{
@@ -1698,9 +2260,14 @@ pub fn replay(check: &dyn Check, path: &str) -> i32
 			}
 		}
 	}
+	report_replay(id, path, &res)
+}
+
+fn report_replay(id: &str, path: &str, res: &[(String, Value)]) -> i32
+{
 	let known = KnownFindings::load();
 	let mut bad = 0;
-	for (sig, detail) in &res
+	for (sig, detail) in res
 	{
 		if sig == "timeout"
 		{
